@@ -38,7 +38,8 @@ impl Class {
 // a small pool on purpose: inputs of one world share type names, so that a cache or
 // registry keyed by name (history dependence) would collide
 const TYPE_NAMES: [&str; 5] = ["Entity", "EntityDto", "Record", "Node", "Item"];
-const COUNTERPARTS: [&str; 20] = [
+const COUNTERPARTS: [&str; 22] = [
+    "(i32, String)", "(u8, T, Vec<u8>)",
     "EntityDto", "Entity", "Model", "Dto", "Other", "wire::Msg", "crate::api::Rec", "Pair<T>", "Wrapper<'a>", "Zed", "Alpha", "Beta",
     // generic arguments of every kind: top-level and nested lifetimes, several of each, const args
     "Pair<&'x str, &'y str>", "Both<'p, 'q>", "Gen<T, U>", "Nested<Vec<&'m T>, &'n [u8], Option<&'k str>>", "Mixed<'a, 'z, T, 3>", "Cow<'c, str>", "::ext::Abs<'e, 'f, 'g>", "Arr<[&'r u8; 2], fn(&'s i32) -> &'s i32>",
@@ -145,7 +146,8 @@ fn trait_params(rng: &mut Rng, o: &TraitOpts) -> String {
 }
 
 fn trait_attr_body(rng: &mut Rng, instr: &str, cp: &str, o: &TraitOpts) -> String {
-    let mut s = format!("{}({}{}", instr, cp, o.hint);
+    // a nameless tuple counterpart takes no type hint
+    let mut s = format!("{}({}{}", instr, cp, if cp.starts_with('(') { "" } else { o.hint });
     if is_fallible(instr) {
         s.push_str(", ");
         s.push_str(*rng.pick(&ERR_TYPES));
@@ -266,7 +268,7 @@ fn field_decl(rng: &mut Rng, shape: Shape, name: &str, generic: bool) -> String 
 /// W2: several counterparts x several kinds, dedicated type-level instructions, ghosts with
 /// and without defaults, mixed member instructions.
 pub fn gen_struct(rng: &mut Rng, class: Class) -> Item {
-    let mut item = Item { type_attrs: vec![], is_enum: false, name: rng.pick(&TYPE_NAMES).to_string(), generics: String::new(), where_clause: String::new(), shape: Shape::Named, members: vec![], origin: class.tag().to_string() };
+    let mut item = Item { type_attrs: vec![], is_enum: false, name: rng.pick(&TYPE_NAMES).to_string(), generics: String::new(), where_clause: String::new(), shape: Shape::Named, members: vec![], origin: class.tag().to_string(), raw: None };
     generics(rng, &mut item);
     item.shape = match rng.below(8) {
         0 | 1 => Shape::Tuple,
@@ -468,7 +470,7 @@ pub fn gen_struct(rng: &mut Rng, class: Class) -> Item {
 
 /// W5: enums -- variant renames, literal / pattern, type hints, ghosts, payload fields.
 pub fn gen_enum(rng: &mut Rng, class: Class) -> Item {
-    let mut item = Item { type_attrs: vec![], is_enum: true, name: rng.pick(&TYPE_NAMES).to_string(), generics: String::new(), where_clause: String::new(), shape: Shape::Named, members: vec![], origin: class.tag().to_string() };
+    let mut item = Item { type_attrs: vec![], is_enum: true, name: rng.pick(&TYPE_NAMES).to_string(), generics: String::new(), where_clause: String::new(), shape: Shape::Named, members: vec![], origin: class.tag().to_string(), raw: None };
     if rng.chance(1, 5) {
         item.generics = "<T>".into();
     }
@@ -1025,7 +1027,18 @@ pub fn generate(rng: &mut Rng, corpus: &Corpus, class: Class) -> Item {
                 corpus.items[rng.below(corpus.items.len() as u64) as usize].clone()
             }
         },
-        Class::W5Enum => gen_enum(rng, class),
+        Class::W5Enum => {
+            if rng.chance(1, 40) {
+                // not a struct or enum at all
+                let mut it = gen_struct(rng, class);
+                let attrs = it.type_attrs.join("\n");
+                it.raw = Some(format!("{}\nunion {} {{ a: u32, b: f32 }}\n", attrs, it.name));
+                it.origin = "W5[union]".into();
+                it
+            } else {
+                gen_enum(rng, class)
+            }
+        },
         Class::W1MultiMisuse => {
             let mut base = match rng.below(5) {
                 0 => gen_enum(rng, class),
